@@ -8,7 +8,7 @@
    commands (r<ab> = revision of the election code, Raft.raftrev: a = fix_vote_term, b = fix_vote_match;
    optional, default r00 = rr_pinned):
      run  [r<ab>] <n> <ev>...   -> the state line after every event, joined by " ;; "
-     flags [r<ab>] <n> <ev>...  -> es=<0|1> agree=<0|1> lc=<0|1> dv=.. sv=.. ad=.. ot=.. av=.. nq=..   (oracles / KnownClass on the model's run)
+     flags [r<ab>] <n> <ev>...  -> es=<0|1> agree=<0|1> lc=<0|1> dv=.. sv=.. ad=.. ot=.. av=.. nq=..   (oracles / KnownClass on the model's run; lc = leaders of HIGHER terms hold the leader-committed entries)
    events: (T i elapsed (j ...)) (D k elapsed) (X k) (U k) (A i d); numbers decimal *)
 open Model
 open Util
@@ -76,7 +76,7 @@ let handle (cmd : string) (args : sexp list) : string =
     let c = run rv (n_of_s n) evl in
     let h = c.c_hist in
     Printf.sprintf "es=%s agree=%s lc=%s dv=%s sv=%s ad=%s ot=%s av=%s nq=%s"
-      (b (election_safety_b h)) (b (committed_agree_b c)) (b (leader_completeness_b h))
+      (b (election_safety_b h)) (b (committed_agree_b c)) (b (leader_completeness_up_b h))
       (b (double_vote_b h)) (b (stale_vote_b h)) (b (ack_diverged_b h)) (b (old_term_commit_b h)) (b (ack_below_vote_b h))
       (b (commit_noquorum_b rv (n_of_s n) evl))
   | "init", [A n] -> str_cluster (init_default (n_of_s n))
